@@ -33,6 +33,7 @@ G0 == [gc      |-> [c \in Conns |-> Conn0],
        lastTry |-> {},        \* [app,mbox,t] last command addressed at it
        crashed |-> FALSE,     \* some CrashIn* happened in this history
        up      |-> FALSE,
+       refused |-> {},        \* connections that were sent a protocol error in their current life
        upSince |-> 0, idleSince |-> 0, lastSweep |-> 0, faulted |-> FALSE]
 
 IsCmd(o)     == o.e.k = "Cmd"
@@ -199,6 +200,10 @@ GNext(g, o) ==
       upSince |-> IF e.k = "Start" THEN t ELSE g.upSince,
       idleSince |-> IF e.k \in {"Advance", "Sweep"} THEN g.idleSince ELSE t,
       lastSweep |-> IF e.k \in {"Sweep", "Start"} THEN t ELSE g.lastSweep,
+      refused |-> IF Restarting(o) THEN {}
+                  ELSE IF e.k \in {"Connect", "Drop"} \/ (e.k = "Cmd" /\ o.err # ABSENT) THEN g.refused \ {c}
+                  ELSE IF e.k = "Cmd" /\ ProtoErr(g.gc[c], m) # ABSENT THEN g.refused \cup {c}
+                  ELSE g.refused,
       faulted |-> g.faulted \/ (e.k = "Sweep" /\ e.fault)]
 
 (***************************************************************************)
@@ -570,6 +575,17 @@ C18a(g, o, g2) ==
      /\ fs[1].names = (IF AllowList THEN AppNames(o.db, g.gc[o.e.c].app) ELSE {})
      /\ o.db2 = o.db
 
+\* C17 (g): a refused command leaves the connection usable -- every later step
+\* that involves a connection which was sent a protocol error is answered and
+\* delivered as if the bad command had not been sent
+InvolvedConns(g, o) ==
+  {o.e.c} \cup MsgTo(o)
+  \cup (IF o.e.m.type = "add" /\ g.gc[o.e.c].held THEN Subscribers(g, g.gc[o.e.c].app, g.gc[o.e.c].mboxId) ELSE {})
+C17g(g, o, g2) ==
+  (IsCmd(o) /\ InvolvedConns(g, o) \cap g.refused # {}) =>
+     /\ C01a(g, o, g2) /\ C02a(g, o, g2) /\ C02b(g, o, g2) /\ C03a(g, o, g2) /\ C04c(g, o, g2)
+     /\ C07c(g, o, g2) /\ C07d(g, o, g2) /\ C08a(g, o, g2) /\ C18a(g, o, g2)
+
 (***************************************************************************)
 (* Known findings: signatures precise enough that any other violation of   *)
 (* the same clause is still reported.                                      *)
@@ -594,7 +610,7 @@ ClauseIds == <<"C01.a", "C01.b", "C02.a", "C02.b", "C03.a", "C03.b", "C03.c", "C
                "C07.a", "C07.b", "C07.c", "C07.d", "C07.e", "C08.a", "C08.b", "C08.c", "C08.d",
                "C09.a", "C09.b", "C10.a", "C10.b", "C10.c", "C12.a", "C12.b",
                "C13.a", "C13.b", "C13.c", "C15.a", "C15.b", "C15.c", "C16.a", "C16.b", "C16.c",
-               "C17.a", "C17.b", "C17.c", "C17.d", "C17.e", "C17.f", "C18.a">>
+               "C17.a", "C17.b", "C17.c", "C17.d", "C17.e", "C17.f", "C17.g", "C18.a">>
 
 Holds(p, g, o, g2) ==
   CASE p = "C01.a" -> C01a(g, o, g2) [] p = "C01.b" -> C01b(g, o, g2)
@@ -617,6 +633,7 @@ Holds(p, g, o, g2) ==
     [] p = "C16.a" -> C16a(g, o, g2) [] p = "C16.b" -> C16b(g, o, g2) [] p = "C16.c" -> C16c(g, o, g2)
     [] p = "C17.a" -> C17a(g, o, g2) [] p = "C17.b" -> C17b(g, o, g2) [] p = "C17.c" -> C17c(g, o, g2)
     [] p = "C17.d" -> C17d(g, o, g2) [] p = "C17.e" -> C17e(g, o, g2) [] p = "C17.f" -> C17f(g, o, g2)
+    [] p = "C17.g" -> C17g(g, o, g2)
     [] p = "C18.a" -> C18a(g, o, g2)
 
 \* which known-finding signatures the step matches
@@ -633,6 +650,6 @@ PropClauses ==
    C10 |-> {"C10.a", "C10.b", "C10.c"}, C12 |-> {"C12.a", "C12.b"},
    C13 |-> {"C13.a", "C13.b", "C13.c"}, C15 |-> {"C15.a", "C15.b", "C15.c"},
    C16 |-> {"C16.a", "C16.b", "C16.c"},
-   C17 |-> {"C17.a", "C17.b", "C17.c", "C17.d", "C17.e", "C17.f"}, C18 |-> {"C18.a"}]
+   C17 |-> {"C17.a", "C17.b", "C17.c", "C17.d", "C17.e", "C17.f", "C17.g"}, C18 |-> {"C18.a"}]
 PropHolds(pid, g, o, g2) == \A p \in PropClauses[pid] : Holds(p, g, o, g2)
 =============================================================================
